@@ -59,6 +59,7 @@ func c02(r *Report) {
 	r.Gate(Gate{ID: "C02.s2s.signer-is-subject", Fn: s2s, Effect: issue, ForEach: true, Check: ErrCheck(Fn(iam, "", "validatePresentationSigner"))})
 	r.Gate(Gate{ID: "C02.s2s.audience", Fn: s2s, Effect: issue, ForEach: true, Check: ErrCheck(Fn(iam, "Wrapper", "validatePresentationAudience"))})
 	r.Gate(Gate{ID: "C02.s2s.definition-for-scope", Fn: s2s, Effect: issue, Check: ErrCheck(Fn(iam, "Wrapper", "presentationDefinitionForScope"))})
+	c02PolicyScope(r)
 	r.Gate(Gate{ID: "C02.s2s.fulfil", Fn: s2s, Effect: issue, Check: ErrCheck(Fn(iam, "PEXConsumer", "fulfill"))})
 	r.Gate(Gate{ID: "C02.s2s.nonce", Fn: s2s, Effect: issue, ForEach: true, Check: ErrCheck(Fn(iam, "Wrapper", "validateS2SPresentationNonce"))})
 	r.Gate(Gate{ID: "C02.s2s.dpop", Fn: s2s, Effect: issue, Check: ErrCheck(Fn(iam, "", "dpopFromRequest"))})
@@ -449,4 +450,62 @@ func c02MarshalOrder(r *Report) {
 		}
 	}
 	r.OK(key, rule, p.Pos(fn.Pos()), fmt.Sprintf("%d named-field writes precede the additional-properties loop", len(updates)), false)
+}
+
+// c02PolicyScope: the presentation definitions demanded for a token request are the ones configured for exactly the
+// requested scope string: the IAM wrapper hands the scope through verbatim and the local policy backend looks it up
+// verbatim (no normalisation, splitting or fallback), failing when it is not configured.
+func c02PolicyScope(r *Report) {
+	p := r.P
+	pds := p.Func("policy", "LocalPDP", "PresentationDefinitions")
+	rule := "ARG: the policy backend looks the definitions up under exactly the requested scope string (every lookup in LocalPDP.mapping is keyed by the scope parameter itself)"
+	key := "C02.policy.exact-scope"
+	if pds == nil {
+		r.Lost(key, rule, "LocalPDP.PresentationDefinitions not found")
+		return
+	}
+	n := 0
+	bad := ""
+	for _, b := range pds.Blocks {
+		for _, in := range b.Instrs {
+			lk, ok := in.(*ssa.Lookup)
+			if !ok || !FieldV("LocalPDP", "mapping").M(lk.X) {
+				continue
+			}
+			n++
+			if !ParamV("scope").M(lk.Index) {
+				bad = "lookup keyed by " + AccessPath(lk.Index, 0) + " at " + p.Pos(lk.Pos())
+			}
+		}
+	}
+	r.Sites += n
+	switch {
+	case n == 0:
+		r.Lost(key, rule, "no lookup in LocalPDP.mapping")
+	case bad != "":
+		r.Bad(key, rule, p.Pos(pds.Pos()), bad)
+	default:
+		r.OK(key, rule, p.Pos(pds.Pos()), fmt.Sprintf("%d lookup(s), keyed by the parameter", n), true)
+	}
+	r.Gate(Gate{ID: "C02.policy.unknown-scope-fails", Fn: pds, Effect: SuccessReturn(), Check: MapOK("mapping")})
+	// the wrapper passes its scope parameter through
+	pdfs := p.Func("auth/api/iam", "Wrapper", "presentationDefinitionForScope")
+	rule2 := "ARG: presentationDefinitionForScope asks the policy backend for its own scope parameter and returns that answer"
+	key2 := "C02.policy.scope-verbatim"
+	if pdfs == nil {
+		r.Lost(key2, rule2, "presentationDefinitionForScope not found")
+		return
+	}
+	calls := Calls(pdfs, p.FnOrImpl("policy", "PDPBackend", "PresentationDefinitions"))
+	r.Sites += len(calls)
+	if len(calls) != 1 {
+		r.Bad(key2, rule2, p.Pos(pdfs.Pos()), fmt.Sprintf("%d PresentationDefinitions calls", len(calls)))
+		return
+	}
+	if !ParamV("scope").M(CallArg(calls[0].Common(), 1)) {
+		r.Bad(key2, rule2, p.Pos(calls[0].Pos()), "scope argument is "+AccessPath(CallArg(calls[0].Common(), 1), 0))
+		return
+	}
+	r.ReturnsOnly(key2+".result", pdfs, 0, true, p.FnOrImpl("policy", "PDPBackend", "PresentationDefinitions"))
+	r.OK(key2, rule2, p.Pos(calls[0].Pos()), "scope parameter passed through", true)
 }
